@@ -9,7 +9,8 @@ def c(label, godebug=None, tags=("verif",), wrap="native", env=None):
 
 PUREGO = ("verif", "purego")
 
-K_SM3 = [c("avx2"), c("avx(no avx2)", "cpu.avx2=off"), c("scalar-asm", "cpu.avx2=off,cpu.avx=off,cpu.ssse3=off"), c("purego", tags=PUREGO)]
+K_SM3 = [c("avx2"), c("avx(no avx2)", "cpu.avx2=off"), c("ssse3(no avx)", "cpu.avx2=off,cpu.avx=off"),
+         c("scalar-asm", "cpu.avx2=off,cpu.avx=off,cpu.ssse3=off"), c("purego", tags=PUREGO)]
 
 def k_sm4(wrappers=("native",), full=True):
     base = [c("aesni+avx2"), c("aesni+avx", "cpu.avx2=off"), c("aesni+sse", "cpu.avx2=off,cpu.avx=off"),
